@@ -65,6 +65,33 @@ func oblProperty(name string) string {
 
 // lemmaMentions: the lemma's source contains a label "<prop>/...".
 func (P *Program) lemmaMentions(fn *ssa.Function, prop string) bool {
+	return P.mentions(fn, prop, 0, map[*ssa.Function]bool{})
+}
+
+func (P *Program) mentions(fn *ssa.Function, prop string, depth int, seen map[*ssa.Function]bool) bool {
+	if seen[fn] || depth > 3 {
+		return false
+	}
+	seen[fn] = true
+	if P.mentionsDirect(fn, prop) {
+		return true
+	}
+	// helper functions of the overlay files (verif*) called by the lemma
+	for _, b := range fn.Blocks {
+		for _, ins := range b.Instrs {
+			if c, ok := ins.(*ssa.Call); ok {
+				if callee, ok := c.Call.Value.(*ssa.Function); ok && strings.HasPrefix(callee.Name(), "verif") && callee.Blocks != nil {
+					if P.mentions(callee, prop, depth+1, seen) {
+						return true
+					}
+				}
+			}
+		}
+	}
+	return false
+}
+
+func (P *Program) mentionsDirect(fn *ssa.Function, prop string) bool {
 	syn, ok := fn.Syntax().(*ast.FuncDecl)
 	if !ok || syn == nil {
 		return false
@@ -115,6 +142,9 @@ func runLemma(P *Program, fn *ssa.Function, opts VerifyOpts, doReplay bool) *Lem
 	lj.Bounded = r.ex.bounded
 	seenRoot := map[string]bool{}
 	for _, o := range r.Obls {
+		if cfg.boundedNote != "" && o.Bounded == "" {
+			o.Bounded = cfg.boundedNote
+		}
 		oj := OblJSON{Name: o.Name, Class: o.Class, Status: o.Status, Solver: o.Solver, Millis: o.Millis, Bounded: o.Bounded}
 		lj.SolverMs += o.Millis
 		if o.Status != "discharged" {
@@ -186,6 +216,16 @@ func (P *Program) applyLemmaConfig(fn *ssa.Function, cfg *RunCfg) {
 					cfg.unwindAssert[f[1]] = true
 				}
 			}
+		case "maxlen": // maxlen name=K ...   (len(param) <= K is a precondition of the lemma)
+			for _, kv := range f[1:] {
+				if i := strings.Index(kv, "="); i > 0 {
+					var n int64
+					fmt.Sscanf(kv[i+1:], "%d", &n)
+					cfg.maxLen[kv[:i]] = n
+				}
+			}
+		case "bounded":
+			cfg.boundedNote = strings.Join(f[1:], " ")
 		case "novariant":
 			for _, n := range f[1:] {
 				cfg.noVariant[n] = true
@@ -278,6 +318,17 @@ func checkProperty(P *Program, verifDir, prop, tier string, opts VerifyOpts) int
 	}
 	wg.Wait()
 
+	if os.Getenv("IKEVERIF_TIMING") != "" {
+		for _, lj := range results {
+			nf := 0
+			for _, o := range lj.Obligations {
+				if o.Status != "discharged" {
+					nf++
+				}
+			}
+			fmt.Printf("TIMING %-40s wall=%6dms solver=%7dms obligations=%d failing=%d %s\n", lj.Lemma, lj.WallMs, lj.SolverMs, len(lj.Obligations), nf, lj.Error)
+		}
+	}
 	// phase 2: concretise and replay each failing obligation once, in the cheapest
 	// lemma in which it fails
 	type pick struct {
